@@ -601,6 +601,10 @@ class Model(object):
       if node["kind"] == "exp_spline":
         e = mp.exp(sum(co[i] * r ** i for i in range(6)))
         cmax = max(abs(c) for c in co[:6])
+        if max(abs(co[i]) * abs(r) ** i for i in range(6)) > mpf("1e7"):
+          # the polynomial inside exp() is a sum of terms > 1e7 that cancel: its double rounding error (> 1e-9) is
+          # amplified exponentially, not linearly - no magnitude bound describes that (same rule as C10)
+          raise RefDomainError("ill-conditioned exponential spline")
         return abs(co[6]) + e * max(mpf(1), amp * cmax * sum(abs(r) ** i for i in range(6)))
       cmax = max(abs(c) for c in co)
       return amp * cmax * sum(abs(r) ** i for i in range(6))
